@@ -64,8 +64,10 @@ def gen_cases(ctx, vocab, nseq, maxops, chunk_no=0):
         nops = rng.range(3, maxops)
         xmlgen = rng.choice([0, 1, 2])
         ops, exp, sigs, tree, det, xmlcmp = g.sequence(lid, nops)
+        order = 10 if rng.chance(1, 2) else 0      # 10: at the end the tree is destroyed before the detached sub-trees
         cases.append({"lang": lid, "xmlgen": xmlgen, "ops": ops, "exp": exp, "sigs": sigs, "tree": tree, "xmlcmp": xmlcmp,
-                      "line": "seq %d %d %s" % (lid, xmlgen, ";".join(ops))})
+                      "det_left": len(det), "tree_first": bool(order),
+                      "line": "seq %d %d %s" % (lid, xmlgen + order, ";".join(ops))})
     return cases
 
 
@@ -127,7 +129,7 @@ def run(ctx):
     if getattr(ctx, "replay", None):
         rp = json.load(open(ctx.replay))
         if rp.get("input"):
-            cases = [{"lang": int(rp["input"].split()[1]), "xmlgen": int(rp["input"].split()[2]),
+            cases = [{"lang": int(rp["input"].split()[1]), "xmlgen": int(rp["input"].split()[2]) % 10,
                       "ops": rp["input"].split(" ", 3)[3].split(";") if len(rp["input"].split(" ", 3)) > 3 else [],
                       "exp": None, "sigs": None, "tree": None, "xmlcmp": False, "line": rp["input"]}]
             if rp.get("xml_input"):
@@ -217,6 +219,19 @@ def process(ctx, batch, harness, driver, tfile, vocab, total, kinds, nontrivial,
         mparts, mtr = split_answer(m)
         ops = c["ops"]
         total["ops"] += len(ops)
+        # ownership shapes (LSan/ASan judge them): a nested tree whose parent chain is then cut, and the destroy order
+        adds = [k for k, o in enumerate(ops) if o.startswith("R,")]
+        if adds:
+            total["nested_tree_histories"] = total.get("nested_tree_histories", 0) + 1
+            if any(k + 1 < len(ops) and ops[k + 1].startswith("X,") for k in adds):
+                total["nested_tree_then_chain_extracted"] = total.get("nested_tree_then_chain_extracted", 0) + 1
+                if any(k + 2 < len(ops) and ops[k + 1].startswith("X,") and ops[k + 2].startswith("K,") for k in adds):
+                    total["...destroyed_before_the_tree"] = total.get("...destroyed_before_the_tree", 0) + 1
+                elif c.get("det_left"):
+                    key = "...left_to_the_end_tree_destroyed_first" if c.get("tree_first") else "...left_to_the_end_tree_destroyed_last"
+                    total[key] = total.get(key, 0) + 1
+        if c.get("tree_first"):
+            total["tree_destroyed_before_detached"] = total.get("tree_destroyed_before_detached", 0) + 1
         # ---- tie: model vs C, every dump
         if mparts is None or parts != mparts:
             k = next((i for i in range(min(len(parts), len(mparts or []))) if parts[i] != mparts[i]), None)
